@@ -98,6 +98,24 @@ func genC01(g *genCtx) {
 		}
 		g.add(&Case{Kind: kind, Doc: d, Ctx: pickCtx(r, d), Expr: genPathPF(r, 3+r.intn(3), nodeTests)})
 	}
+	// prefixed and unprefixed name tests in one path, on documents that use prefixes (no namespace map: a test
+	// p:name then compares prefix and local name as written; an unprefixed test matches unprefixed names only)
+	nsPool := docPool(r, nsProfile, 4, 2, g.scale(40, 150), 14)
+	qn := []string{"a", "b", "p:a", "q:a", "p:b", "q:b", "*", "p:*", "q:*", "@k", "@p:k", "@q:a", "@*", "node()", "text()"}
+	for i := 0; i < g.scale(4000, 40000); i++ {
+		d := nsPool[r.intn(len(nsPool))]
+		var parts []string
+		for k := 0; k < 2+r.intn(3); k++ {
+			t := r.pick(qn)
+			if strings.HasPrefix(t, "@") || r.chance(2, 3) {
+				parts = append(parts, t)
+			} else {
+				parts = append(parts, r.pick(axes12)+"::"+t)
+			}
+		}
+		e := r.pick([]string{"", "/", "//"}) + strings.Join(parts, r.pick([]string{"/", "/", "//"}))
+		g.add(&Case{Kind: "sel", Doc: d, Ctx: pickCtx(r, d), Expr: e})
+	}
 }
 
 func genC02(g *genCtx) {
@@ -340,6 +358,10 @@ func genShapeHistories(g *genCtx, n int, exprs []string) {
 var cmpOps = []string{"=", "!=", "<", "<=", ">", ">="}
 
 func genOperand(r *rng) string {
+	if r.chance(1, 8) {
+		// redundant parentheses change nothing
+		return "(" + genOperand(r) + ")"
+	}
 	switch r.intn(6) {
 	case 0:
 		return r.pick(numLits)
@@ -468,6 +490,46 @@ func genC07(g *genCtx) {
 		{"0.000000000000000000000000000000000000000000000000000000000000000000000000000000000000000000000000000000000000000000000000000000000000000000000000000000000000000000000000000000000000000000000000000000000000000000000000000000000000000000000000000000000000000000000000000000000000000000000000000000000000000000000000000000000005", "0"}}
 	dn := Doc{{Depth: 0, Kind: 'r'}, {Depth: 1, Kind: 'e', Name: "r"}, {Depth: 2, Kind: 'e', Name: "v", Attrs: []Attr{{Name: "k", Val: "0.30000000000000004"}}}, {Depth: 3, Kind: 't', Data: "0.30000000000000004"},
 		{Depth: 2, Kind: 'e', Name: "w", Attrs: []Attr{{Name: "k", Val: "1.0000000000000002"}}}, {Depth: 3, Kind: 't', Data: "0.3"}}
+	// every operand form once more in redundant parentheses (function calls, literals, paths, comparisons), within
+	// the type pairs the property lists: numbers with numbers and node-sets under all six operators, strings with
+	// strings and node-sets under = and !=, node-set with node-set under = and !=, and / or over anything
+	for i := 0; i < g.scale(3000, 30000); i++ {
+		d := pool[r.intn(len(pool))]
+		par := func(x string) string {
+			if r.chance(2, 3) {
+				return "(" + x + ")"
+			}
+			return x
+		}
+		num := func() string {
+			return r.pick([]string{"count(" + genFlatPath(r) + ")", "string-length(" + genFlatPath(r) + ")", "number(" + genFlatPath(r) + ")", "sum(" + genFlatPath(r) + "/@k)", r.pick(numLits), "1 + 1"})
+		}
+		str := func() string {
+			return r.pick([]string{"string(" + genFlatPath(r) + ")", "concat('1', '0')", "name()", "local-name(" + genFlatPath(r) + ")", r.pick(strLits), "normalize-space(" + genFlatPath(r) + ")"})
+		}
+		boo := func() string {
+			return r.pick([]string{"true()", "false()", "not(" + genFlatPath(r) + ")", "boolean(" + genFlatPath(r) + ")", "count(*) > 0", "not(true())"})
+		}
+		set := func() string { return genFlatPath(r) }
+		var e string
+		switch r.intn(7) {
+		case 0:
+			e = par(num()) + " " + r.pick(cmpOps) + " " + par(r.pick([]string{num(), set()}))
+		case 1:
+			e = par(set()) + " " + r.pick(cmpOps) + " " + par(num())
+		case 2:
+			e = par(str()) + " " + r.pick([]string{"=", "!="}) + " " + par(r.pick([]string{str(), set()}))
+		case 3:
+			e = par(set()) + " " + r.pick([]string{"=", "!="}) + " " + par(r.pick([]string{str(), set()}))
+		case 4:
+			e = par(r.pick([]string{num(), str(), boo(), set()})) + " " + r.pick([]string{"and", "or"}) + " " + par(r.pick([]string{num(), str(), boo(), set()}))
+		case 5:
+			e = "not(" + par(r.pick([]string{boo(), set()})) + ") " + r.pick([]string{"and", "or"}) + " " + par(boo())
+		default:
+			e = par(par(num()) + " " + r.pick(cmpOps) + " " + par(num())) + " " + r.pick([]string{"and", "or"}) + " " + par(par(str()) + " = " + par(set()))
+		}
+		g.add(&Case{Kind: "eval", Doc: d, Ctx: pickNodeCtx(r, d), Expr: e})
+	}
 	// operands that walk the context node away before the other operand is evaluated
 	for i := 0; i < g.scale(4000, 40000); i++ {
 		d := pool[r.intn(len(pool))]
@@ -603,6 +665,21 @@ func genC08(g *genCtx) {
 		}
 		g.add(&Case{Kind: "eval", Doc: d, Ctx: pickNodeCtx(r, d), Expr: e})
 	}
+	// sum() adds the values one after the other, from 0, in document order: node sets of 3 to 14 values that are
+	// not exactly representable (every other order or algorithm of addition gives another last bit)
+	fr := []string{"0.1", "0.2", "0.3", "0.7", "1.1", "2.2", "0.01", "1000000.1", "3.3", "0.15", "1e3", "12345.678", "0.000001", "5", ".5"}
+	for i := 0; i < g.scale(1500, 15000); i++ {
+		d := Doc{{Depth: 0, Kind: 'r'}, {Depth: 1, Kind: 'e', Name: "r"}}
+		for k, n := 0, 3+r.intn(12); k < n; k++ {
+			v := r.pick(fr)
+			if v == "1e3" {
+				v = "1000"
+			}
+			d = append(d, Rec{Depth: 2, Kind: 'e', Name: "v", Attrs: []Attr{{Name: "k", Val: r.pick(fr[:10])}}}, Rec{Depth: 3, Kind: 't', Data: v})
+		}
+		e := r.pick([]string{"sum(//v)", "sum(/r/v)", "sum(//v/@k)", "sum(//v) + sum(//v/@k)", "sum(/r/v/text())", "sum(//v) div count(//v)", "string(sum(//v))", "sum(//v[position() > 1])", "sum(r/v)"})
+		g.add(&Case{Kind: "eval", Doc: d, Ctx: Ref{0, -1}, Expr: e})
+	}
 	// arithmetic whose first operand walks the context node away (count/sum/string-length/number of a filtered,
 	// positional or following:: path): the second operand is evaluated at the same context node
 	for i := 0; i < g.scale(3000, 30000); i++ {
@@ -730,6 +807,29 @@ func genC09(g *genCtx) {
 	for i := 0; i < g.scale(30000, 300000); i++ {
 		d := pool[r.intn(len(pool))]
 		g.add(&Case{Kind: "eval", Doc: d, Ctx: pickNodeCtx(r, d), Expr: genStrExpr(r, r.intn(4))})
+	}
+	// white space is space, tab, CR, LF — not VT, FF or the Unicode spaces (known finding: normalize-space takes
+	// Go's unicode.IsSpace; the other functions treat these characters as ordinary ones)
+	for _, w := range []string{"\v", "\f"} { // (ASCII: the property speaks about ASCII strings)
+		for _, e := range []string{"normalize-space('" + w + "9')", "normalize-space(' a" + w + w + "b ')", "string-length(normalize-space('x" + w + "'))", "concat('[', normalize-space('" + w + "'), ']')",
+			"string-length('" + w + "')", "contains('a" + w + "b', '" + w + "')", "translate('a" + w + "b', '" + w + "', '-')", "substring-before('a" + w + "b', '" + w + "')", "number('" + w + "7') = 7"} {
+			g.add(&Case{Kind: "eval", Doc: d0, Ctx: Ref{0, -1}, Expr: e})
+		}
+	}
+	// node-set arguments that are present on some candidates and absent on others, evaluated for one candidate after
+	// the other by one compiled function (an absent node-set is the empty string, whatever the previous candidate had)
+	for i := 0; i < g.scale(3000, 30000); i++ {
+		d := pool[r.intn(len(pool))]
+		a1, a2 := r.pick([]string{"@k", "@m", "@a", "a", "b", "text()", "."}), r.pick([]string{"@k", "@m", "@a", "a", "b", "text()", "@zz"})
+		f := r.pick([]string{"substring-before(" + a1 + ", " + a2 + ")", "substring-after(" + a1 + ", " + a2 + ")", "concat(" + a1 + ", '|', " + a2 + ")", "translate(" + a1 + ", string(" + a2 + "), 'x')",
+			"string-join(" + a1 + " | " + a2 + ", string(" + a2 + "))", "normalize-space(" + a2 + ")", "substring(" + a1 + ", 1, string-length(" + a2 + "))", "lower-case(" + a2 + ")"})
+		e := "//*[" + f + " " + r.pick([]string{"=", "!="}) + " " + r.pick([]string{"''", "'a'", "'1'", a1, "'|'"}) + "]"
+		if r.chance(1, 3) {
+			e = "count(//*[" + f + " = " + a1 + "])"
+			g.add(&Case{Kind: "eval", Doc: d, Ctx: Ref{0, -1}, Expr: e})
+			continue
+		}
+		g.add(&Case{Kind: "sel", Doc: d, Ctx: Ref{0, -1}, Expr: e})
 	}
 	// an earlier argument that walks the context node away (a filtered, positional or following:: path): the later
 	// arguments are evaluated at the same context node
@@ -1087,6 +1187,20 @@ func genC11(g *genCtx) {
 		default:
 			e = a + " | " + b
 		}
+		g.add(&Case{Kind: "sel", Doc: d, Ctx: pickCtx(r, d), Expr: e})
+	}
+	// a union (or sequence) inside a predicate is evaluated again for every candidate; its operands reach nodes that
+	// other candidates reach too (parent, ancestors, siblings, absolute paths): each evaluation starts from nothing
+	for i := 0; i < g.scale(4000, 40000); i++ {
+		d := pool[r.intn(len(pool))]
+		o := func() string {
+			return r.pick([]string{"..", "../" + r.pick(tests), "ancestor::*", "preceding-sibling::" + r.pick(tests), "following-sibling::" + r.pick(tests), "//" + r.pick(tests), "/*", r.pick(tests), "@*", "../@*", "."})
+		}
+		u := o() + " | " + o()
+		if r.chance(1, 4) {
+			u = "./(" + o() + ", " + o() + ")"
+		}
+		e := r.pick([]string{"//*", "//a", "*", "//*/*"}) + "[" + r.pick([]string{u, "(" + u + ")/@k", "count(" + u + ") > 1", "not(" + u + ")", "(" + u + ")[2]", u + " | " + o()}) + "]"
 		g.add(&Case{Kind: "sel", Doc: d, Ctx: pickCtx(r, d), Expr: e})
 	}
 	// very wide documents: children that differ only in a position far beyond any small bound (65 536 and more
